@@ -336,7 +336,7 @@ func countTypes(b []*batchOp) int {
 }
 
 func checkC13(c *hx.Ctx) {
-	c.Rule("batches of client-built operations through the REAL OperationHandler, gzip and OperationProvider over an in-memory CAS: all 4+16+64+256 type sequences of length <= 4 on distinct DIDs (exhaustive), the same sequences with repeated suffixes at every position, deactivate-only / update-only / single-operation / maximum-size batches, operations of different DIDs that reveal the same key, a protocol whose suffix algorithm (its first) differs from the algorithm the controllers hash with, batches with operations expired on a virtual clock (also all-expired), random mixes up to MaxOperationCount; every operation carries a unique marker; oracle: one operation per distinct suffix (the first queued) reads back with same type, suffix, JSON-equal request and embedded anchor origin, ordered create, recover, update, deactivate; anchor count = operations read back; included + deferred + expired = queued exactly once; every batch is also read back through the transaction's alternate sources by a node holding no file, and re-created with the k-th CAS write failing (once / permanently) for every k: error or an anchor string that reads back as the batch; non-trivial = batch with >= 2 operations; distinct = distinct batches")
+	c.Rule("batches of client-built operations through the REAL OperationHandler, gzip and OperationProvider over an in-memory CAS: all 4+16+64+256 type sequences of length <= 4 on distinct DIDs (exhaustive), the same sequences with repeated suffixes at every position, deactivate-only / update-only / single-operation / maximum-size batches, operations of different DIDs that reveal the same key, a protocol whose suffix algorithm (its first) differs from the algorithm the controllers hash with, batches with operations expired on a virtual clock (also all-expired), random mixes up to MaxOperationCount; every operation carries a unique marker; oracle: one operation per distinct suffix (the first queued) reads back with same type, suffix, JSON-equal request and embedded anchor origin, ordered create, recover, update, deactivate; anchor count = operations read back; included + deferred + expired = queued exactly once; every batch is also read back through the transaction's alternate sources by a node holding no file, and re-created with the k-th CAS write failing (once / permanently) for every k: error or an anchor string that reads back as the batch; batches cut by the REAL batch writer from the real in-memory queue with one anchor / CAS write failing (roll-back and second cut): over the run every queued operation reads back exactly once and the first queued operation of a DID before the others; non-trivial = batch with >= 2 operations; distinct = distinct batches")
 	rng := c.Rng("pool")
 	type env struct {
 		p    protocol.Protocol
@@ -558,6 +558,8 @@ func checkC13(c *hx.Ctx) {
 	for _, t := range []string{"types-distinct-dids", "repeated-suffix", "expiring-at-450", "expiring-at-600", "update-only-max", "deactivate-only-max", "single", "maximum-size", "tight-file-limits", "random", "six-operations-one-suffix", "operations-sharing-a-key", "suffix-algorithm-differs-from-controller-algorithm", "same-suffix-under-two-namespaces"} {
 		c.Floor("ok:"+t, 1)
 	}
+	c13ThroughWriter(c)
+	c.Floor("writer_runs_with_a_rolled_back_batch", 50)
 	c.Floor("all_expired_batches", 1)
 	c.Floor("alternate_source_reads", 500)
 	c.Floor("write_fault_reported", 1000)
